@@ -54,6 +54,31 @@ CLS_PY = {
 INT64 = (-(2 ** 63), 2 ** 63 - 1)
 
 
+def model_batch(requests, timeout=600):
+    """Like common.model_batch, but answers are split on "\\n" only: the driver prints U+0085 / U+2028 /
+    U+2029 unescaped inside JSON strings and str.splitlines() would cut the answer there."""
+    import subprocess
+
+    if not requests:
+        return []
+    if not os.path.exists(common.DRIVER):
+        raise common.DriverError(f"model driver not built: {common.DRIVER}")
+    data = "\n".join(json.dumps(r, separators=(",", ":")) for r in requests) + "\n"
+    p = subprocess.run([common.DRIVER], input=data.encode(), stdout=subprocess.PIPE, stderr=subprocess.PIPE, timeout=timeout)
+    if p.returncode != 0:
+        raise common.DriverError(f"driver exit {p.returncode}: {p.stderr.decode()[-2000:]}")
+    lines = p.stdout.decode().split("\n")
+    if lines and lines[-1] == "":
+        lines.pop()
+    if len(lines) != len(requests):
+        raise common.DriverError(f"driver answered {len(lines)} lines for {len(requests)} requests")
+    out = []
+    for line in lines:
+        j = json.loads(line)
+        out.append(("ok", j["ok"]) if "ok" in j else ("err", j.get("err")))
+    return out
+
+
 def _os():
     import snowfakery.output_streams as os_
 
@@ -174,7 +199,7 @@ class ModelCells:
         if not self.pending:
             return
         keys = list(self.pending)
-        res = common.model_batch([self.pending[k] for k in keys])
+        res = model_batch([self.pending[k] for k in keys])
         for k, (st, val) in zip(keys, res):
             self.cache[k] = val if st == "ok" else ["driver-error", val]
         self.pending = {}
@@ -204,11 +229,11 @@ def sample_values(rng, n):
         ObjectRow("P", {"id": 7}), ObjectReference("Q q", 12), ObjectReference("P", 2 ** 70),
         (1, 2), [1], {"a": 1}, 1 + 2j, b"bytes", datetime.timedelta(days=1),
     ]
-    out = list(pool)
+    out = list(pool) + list(CONTROL) + list(LONG_STRINGS)
     for _ in range(n):
         k = rng.randint(0, 5)
         if k == 0:
-            out.append("".join(rng.choice('ab ,"\'\n=()é☃\\;') for _ in range(rng.randint(0, 12))))
+            out.append("".join(rng.choice(ALPHABET) for _ in range(rng.randint(0, 12))))
         elif k == 1:
             out.append(rng.choice([1, -1]) * rng.getrandbits(rng.choice([8, 31, 62, 63, 64, 65, 90])))
         elif k == 2:
@@ -253,7 +278,7 @@ def run_enc(ctx, rep):
                 code = ["error", type(e).__name__]
             reqs.append({"m": "c08.cleanup", "cls": cls, "val": {k: x for k, x in val.items() if k != "type"}})
             meta.append((cls, val, code))
-    res = common.model_batch(reqs)
+    res = model_batch(reqs)
     for (cls, val, code), (st, model) in zip(meta, res):
         case = {"kind": "enc", "cls": cls, "val": val}
         rep.case(case, nontrivial=True)
@@ -400,7 +425,7 @@ def check_db(cases, rep):
         reqs.append({"m": "c08.db", "count0": r["count0"], "fl": r["fl"],
                      "cl": r["cl"],  # SqlTextOutputStream.commit delegates to the inner stream (fix 043066e)
                      "pre": bool(case.get("pre", True)), "known": case["known"], "ws": case["ws"]})
-    res = common.model_batch(reqs)
+    res = model_batch(reqs)
     for case, r, (st, m) in zip(cases, reals, res):
         n = len(case["ws"])
         nbad = sum(1 for w in case["ws"] if w[1])
@@ -509,7 +534,7 @@ def real_mux_close(oks):
 
 
 def check_mux(cases, rep):
-    res = common.model_batch([{"m": "c08.muxclose", "oks": c["oks"], "goOn": True} for c in cases])
+    res = model_batch([{"m": "c08.muxclose", "oks": c["oks"], "goOn": True} for c in cases])
     for case, (st, m) in zip(cases, res):
         code = real_mux_close(case["oks"])
         rep.case(case, nontrivial=len(case["oks"]) >= 2)
@@ -532,15 +557,38 @@ FIELD_KINDS = [
     "str", "hostile", "int", "bigint40", "float", "bool", "none", "date", "datetime", "datetime_us", "now", "decimal",
     "idformula", "literal_int", "literal_bool", "literal_date", "empty", "long", "ref", "nested", "randref",
 ]
-HOSTILE = [
+# control and separator characters (everything str.splitlines() splits on, NUL, DEL, SUB, BOM), quote
+# and escape characters alone, strings that look like numbers / booleans / NULL / formulas
+CONTROL = [
+    "first line\rsecond line", "a\nb", "a\r\nb", "a\tb", "a\x0bb", "a\x0cb", "a\x1cb", "a\x1db", "a\x1eb", "a\x85b",
+    "a\u2028b", "a\u2029b", "a\x00b", "\x00", "a\x1ab", "a\x7fb", "\ufeffbom", "\r", "\n", "\r\n", "\t", " ", "  ",
+    "\rlead", "trail\r", "trail\n", "x\r\ry", '"', '""', '"""', "'", "''", "\\", "\\\\", '\\"', ";", "|", ",", ",,", '","',
+    "=1+1", "+1", "-0", "0x10", "1_000", "1e3", "007", "NaN", "inf", "True", "false", "null", "NULL", "None", "~", "@x", "\x01",
+]
+LONG_STRINGS = ["x" * 100000, ("ab,\"\r\n" * 20000)]
+ALPHABET = 'ab ,"\'\n\r\t\x0b\x0c\x1c\x1d\x1e\x85\u2028\u2029=()é☃\\;|😀'
+
+HOSTILE = CONTROL + [
     "a,b", 'say "hi"', "it's", "line1\nline2", "cr\r\nlf", "tab\there", "é ☃ 😀", " lead", "trail ", "None", "NULL",
     "true", "007", "1e3", "a, b=c)", "\\", "';--", "=1+1", "x, y", "A(id=1, b=2)", "[1, 2]", "{}", "#", "- x", ": y", "%", "`", "|",
 ]
 
 
 def yq(s):
-    """A YAML double-quoted scalar (JSON string syntax is a subset of it)."""
-    return json.dumps(s, ensure_ascii=False)
+    """A YAML double-quoted scalar; everything outside printable ASCII is escaped (`\\uXXXX`,
+    `\\UXXXXXXXX`) so that control characters, NEL/LS/PS and NUL reach the interpreter unchanged."""
+    out = ['"']
+    for c in s:
+        o = ord(c)
+        if c in '"\\':
+            out.append("\\" + c)
+        elif 0x20 <= o < 0x7F:
+            out.append(c)
+        elif o <= 0xFFFF:
+            out.append("\\u%04x" % o)
+        else:
+            out.append("\\U%08x" % o)
+    return "".join(out) + '"'
 
 
 def render_field(name, f, indent):
@@ -634,6 +682,8 @@ def gen_field(rng, tables_before, allow):
     f = {"kind": k}
     if k == "str":
         f["v"] = rng.choice(["x", "hello world", "Zoë", "a b c", "v" + str(rng.randint(0, 99))])
+    elif k == "hostile" and rng.random() < 0.4:
+        f["v"] = "".join(rng.choice(ALPHABET) for _ in range(rng.randint(1, 12)))
     elif k == "hostile":
         f["v"] = rng.choice(HOSTILE)
     elif k == "long":
@@ -772,7 +822,7 @@ def check_schema(specs, rep):
                 keys.setdefault(t, set()).add(tuple(k for k, _ in fields))
         reals.append((text, tables, keys, res))
         reqs.append({"m": "c08.schema", "templates": flat_templates(spec)})
-    it = iter(common.model_batch(reqs))
+    it = iter(model_batch(reqs))
     for spec, real in zip(specs, reals):
         if real is None:
             continue
@@ -1152,6 +1202,9 @@ def check_e2e(case, rep, mc, res=None):
             continue
         if got != want:
             sig = sig_loss or f"C08:value-mismatch:{fmt}:{typename(v)}"
+            if (not sig_loss and fmt == "sql" and isinstance(v, str) and "\x00" in v
+                    and got == ["text", v.split("\x00")[0]]):
+                sig = "C08:sql-script-truncates-at-nul"  # D56
             if sig not in seen_sig:
                 seen_sig.add(sig)
                 rep.violation(sig, f"run reported success but artefact {name}, table {t}, row {ri}, field {k}: a {typename(v)} value reads back as {got}, "
@@ -1234,7 +1287,23 @@ UNICODE_RECIPE = """- snowfakery_version: 3
     name: "snow \\u2603 man"
 """
 
+def hostile_sheet(strings, per=12):
+    """One table, two rows, every string of `strings` as its own field (`per` fields per recipe chunk)."""
+    out = []
+    for i in range(0, len(strings), per):
+        chunk = strings[i: i + per]
+        fields = [[f"h{i + j:02d}", {"kind": "hostile", "v": v}] for j, v in enumerate(chunk)] + [["tail", {"kind": "str", "v": "end"}]]
+        out.append({"templates": [{"table": "A", "count": 2, "fields": fields}]})
+    return out
+
+
+HOSTILE_SHEETS = hostile_sheet(CONTROL) + hostile_sheet(LONG_STRINGS)
+
 FIXED_E2E = [
+    {"kind": "e2e", "spec": sp, "cfg": cfg}
+    for sp in HOSTILE_SHEETS
+    for cfg in ({"csv": True}, {"db": 1, "files": ["txt", "json", "sql"]})
+] + [
     # D15 shapes: unbindable value in the final batch
     {"kind": "e2e", "recipe": D15_RECIPE, "cfg": {"db": 1}},
     {"kind": "e2e", "recipe": D15_RECIPE, "cfg": {"db": 1, "files": ["json"]}},
